@@ -1608,6 +1608,72 @@ def rule_r15(prog, res):
     res.floor('R15', 'sequence tests in _gen_http_headers', k, 1)
 
 
+# ------------------------------------------------------------------ R16
+def rule_r16(prog, res):
+    res.rule('R16', 'the eager part of handle_rpc outside any try cannot '
+             'refuse a request by raising: a private helper of the transport '
+             'that handle_rpc calls unprotected contains no raise statement '
+             'of its own (a refusal there would leave the WSGI callable '
+             'without start_response, body or context close); refusals are '
+             'raised lazily from the body generator or recorded in in_error')
+    w = prog.cls(WSGI)
+    h = w.methods.get('handle_rpc')
+    if h is None:
+        raise AnalysisError('WsgiApplication.handle_rpc', 'not found')
+    from ..flow import enclosing_trys
+
+    def helper_of(call):
+        f = call.func
+        if isinstance(f, ast.Attribute) and unparse(f.value) == 'self' and \
+                f.attr.startswith('_'):
+            return w.methods.get(f.attr)
+        return None
+
+    seen = set()
+    todo = []
+    for c in calls_in(h.node):
+        g = helper_of(c)
+        if g is None or g.name in seen:
+            continue
+        if any(reg == 'body' for _t, reg in enclosing_trys(c, stop=h.node)):
+            continue
+        seen.add(g.name)
+        todo.append((g, 'handle_rpc'))
+    n = 0
+    while todo:
+        g, via = todo.pop()
+        if _is_generator(g):
+            continue            # runs when the body is consumed, not here
+        n += 1
+        bad = [r for r in walk_no_defs(g.node) if isinstance(r, ast.Raise)
+               and not any(reg == 'body' and any(
+                   not handler_names_(hd) or 'Exception' in handler_names_(hd)
+                   or 'Fault' in handler_names_(hd) for hd in t.handlers)
+                   for t, reg in enclosing_trys(r, stop=g.node))]
+        res.ob('R16', g.where, '%s (called unprotected via %s) has no raise '
+               'statement' % (g.name, via), 'ok' if not bad else 'VIOLATED')
+        for r in bad:
+            res.finding('R16', 'WsgiApplication.%s|eager-raise|%s' % (
+                g.name, unparse(r.exc)[:40] if r.exc is not None else
+                'reraise'), '%s:%d' % (g.module.relpath, r.lineno),
+                'raised while handle_rpc is outside every try: the exception '
+                'leaves the WSGI callable, start_response is never called '
+                'and the context is never closed')
+        for c in calls_in(g.node):
+            k = helper_of(c)
+            if k is not None and k.name not in seen and not any(
+                    reg == 'body' for _t, reg in
+                    enclosing_trys(c, stop=g.node)):
+                seen.add(k.name)
+                todo.append((k, g.name))
+    res.floor('R16', 'unprotected eager helpers of handle_rpc', n, 1)
+
+
+def handler_names_(hd):
+    from ..flow import handler_names
+    return handler_names(hd)
+
+
 def run(prog, res, tier):
     res.run_rule(rule_r1, prog, res)
     res.run_rule(rule_r2, prog, res)
@@ -1624,11 +1690,20 @@ def run(prog, res, tier):
     res.run_rule(rule_r13, prog, res)
     res.run_rule(rule_r14, prog, res)
     res.run_rule(rule_r15, prog, res)
+    res.run_rule(rule_r16, prog, res)
 
 
 _W = 'spyne/server/wsgi.py'
 
 MUTANTS = [
+    Mutant('charset-refused-eagerly', 'R16', 'fire', _W,
+           in_func('WsgiApplication.__reconstruct_wsgi_request',
+                   "            charset = content_type[1].get('charset', "
+                   "None)\n",
+                   "            charset = content_type[1].get('charset', "
+                   "None)\n            if charset == 'x-none':\n"
+                   "                raise Fault('Client.BadRequest', "
+                   "'Unknown charset')\n"), 'eager-raise'),
     Mutant('path-info-indexed-first', 'R15', 'fire', 'spyne/server/wsgi.py',
            in_func('_reconstruct_url',
                    "        if (quote(environ.get('SCRIPT_NAME', '')) == '/' "
